@@ -64,6 +64,18 @@ def _writer(np, p, path):
 		if p['compression_opts'] is not None:
 			kw['compression_opts'] = p['compression_opts']
 
+	if p.get('wrap') == 'hdf5_source':
+		# the collection being written is one loaded from another signature file (re-saving / converting a file): the source
+		# is written once here and opened inside the writer process
+		from gambit.sigs.base import load_signatures
+		src = path + '.source.gs'
+		dump_signatures(src, obj)
+
+		def write():
+			with load_signatures(src) as s:
+				dump_signatures(path, s, **kw)
+		return write, (spec, arrays, exp_ids, exp_meta)
+
 	def write():
 		dump_signatures(path, obj, **kw)
 	return write, (spec, arrays, exp_ids, exp_meta)
@@ -245,14 +257,15 @@ def run_case(case, ctx):
 			refused += 1
 		else:
 			loaded += 1
-	if os.path.exists(path):
-		os.unlink(path)
+	for pth in (path, path + '.source.gs'):
+		if os.path.exists(pth):
+			os.unlink(pth)
 	big = case.get('writer') != 'cli' and sum(s[0] for s in p['sigs']) >= 100000
 	if case.get('writer') == 'cli':
 		p = dict(p, container='list', compression=None)
 	classes = ['death=' + case.get('how', 'sigkill'), 'writer=' + case.get('writer', 'api'),
 	           'path=' + ('array' if p['container'].endswith('array') else 'list'), f'compression={p["compression"]}',
-	           'multi_megabyte' if big else 'small', 'preexisting=' + str(case.get('preexisting')), f'points={"<=16" if count <= 16 else "17-24" if count <= 24 else ">24"}']
+	           'multi_megabyte' if big else 'small', 'preexisting=' + str(case.get('preexisting')), 'composed=' + str(p.get('wrap') or 'directly'), f'points={"<=16" if count <= 16 else "17-24" if count <= 24 else ">24"}']
 	if loaded > 1:
 		classes.append('loads_before_close_returned')
 	return {'evals': evals, 'nontrivial_count': nt, 'nontrivial': True, 'classes': classes, 'points': count + 1,
